@@ -1,6 +1,9 @@
 /* C03 native driver: the real TravelDirections functions against the sign-triple spec, exhaustively over the
  * 27 codes, the 64 masks and all sign classes of a direction vector ({-inf,-1,-0,+0,1,inf,NaN}^3). */
+#include "DensitySubGridCreator.hpp"
+#include "HomogeneousDensityFunction.hpp"
 #include "TravelDirections.hpp"
+#include <vector>
 #include "cm_replay.hpp"
 #include <cmath>
 #include <limits>
@@ -91,8 +94,34 @@ static int check_all(bool verbose) {
   return bad;
 }
 
+/* copies: create copies, change the copy levels (update_copies re-runs create_copies), then every subgrid with
+ * copies must point at its own first copy and every copy must be registered under its original */
+static int check_copies(bool verbose) {
+  DensitySubGridCreator< DensitySubGrid > creator(Box<>(CoordinateVector<>(0.), CoordinateVector<>(1.)), CoordinateVector< int_fast32_t >(8, 8, 8),
+                                                  CoordinateVector< int_fast32_t >(4, 2, 2), CoordinateVector< bool >(false, false, false));
+  HomogeneousDensityFunction density_function;
+  creator.initialize(density_function);
+  const size_t norig = creator.number_of_original_subgrids();
+  std::vector< uint_fast8_t > l1(norig, 0), l2(norig, 0);
+  l1[9] = 1;
+  l2[2] = 2; l2[9] = 1; l2[10] = 1;
+  creator.create_copies(l1);
+  creator.update_copies(l2);
+  int bad = 0;
+  for (size_t i = 0; i < norig; ++i) {
+    if (l2[i] == 0) continue;
+    const size_t first = creator._copies[i];
+    if (first < norig || first >= creator._subgrids.size() || creator._originals[first - norig] != i) {
+      bad = 1;
+      if (verbose) std::printf("REPRODUCED: after create_copies + update_copies the first-copy offset of subgrid %zu is %zu, which is %s\n", i, first,
+                               (first >= norig && first < creator._subgrids.size()) ? "a copy of another subgrid" : "not a copy at all");
+    }
+  }
+  return bad;
+}
+
 int main(int argc, char **argv) {
-  if (argc >= 4 && std::string(argv[1]) == "fidelity") { if (check_all(true)) { std::fprintf(stderr, "FIDELITY MISMATCH\n"); return 1; } std::printf("FIDELITY OK cases=%d\n", 27 + 27 * 343 + 64); return 0; }
-  if (argc >= 3 && std::string(argv[1]) == "replay") { int b = check_all(true); if (!b) std::printf("NOT-REPRODUCED\n"); return b; }
+  if (argc >= 4 && std::string(argv[1]) == "fidelity") { if (check_all(true) | check_copies(true)) { std::fprintf(stderr, "FIDELITY MISMATCH\n"); return 1; } std::printf("FIDELITY OK cases=%d\n", 27 + 27 * 343 + 64); return 0; }
+  if (argc >= 3 && std::string(argv[1]) == "replay") { int b = check_all(true) | check_copies(true); if (!b) std::printf("NOT-REPRODUCED\n"); return b; }
   return 2;
 }
